@@ -33,9 +33,9 @@ def scopes(tier):
     # matchrule semantics (what "a matching exception" means): all single rules and pairs of rules over a
     # small alphabet, inverted or not, data shorter / longer than the values
     if q:
-        out.append(("static", {"Parts": '{"size", "match", "cri", "xlist", "rlist", "skey", "offs"}', "MSyms": "{1, 2, 3}", "MCi": "{FALSE, TRUE}"}))
+        out.append(("static", {"Parts": '{"size", "match", "cri", "xlist", "rlist", "skey", "offs", "seq"}', "MSyms": "{1, 2, 3}", "MCi": "{FALSE, TRUE}"}))
     else:
-        out.append(("static", {"Parts": '{"size", "match", "cri", "xlist", "rlist", "skey", "offs"}', "MSyms": "{1, 2, 3}", "MCi": "{FALSE, TRUE}", "MPairLens": "{1, 2, 3}"}))
+        out.append(("static", {"Parts": '{"size", "match", "cri", "xlist", "rlist", "skey", "offs", "seq"}', "MSyms": "{1, 2, 3}", "MCi": "{FALSE, TRUE}", "MPairLens": "{1, 2, 3}"}))
     # a rule gives source 2 its own threshold, below / equal / above the global one; long enough to flood a
     # banned source beyond unban * its threshold and then keep it silent for unban + 1 rounds
     rthr = dict(sp, NSrc="2", Kinds='{"n"}', Dts="{1}", Modes='{"rules"}', Us="{4, 1}")
@@ -112,6 +112,8 @@ def strict_runs(ctx):
         ("r8", "Admission_mutant.cfg", "mutant/exception-subject-sticks", {"Parts": '{"xlist"}', "M_SubjectPerException": "FALSE"}),
         ("r9", "Admission_mutant.cfg", "mutant/last-matching-rule-wins", {"Parts": '{"rlist"}', "M_FirstRuleWins": "FALSE"}),
         ("r10", "Admission_mutant.cfg", "mutant/empty-source-key-shared", {"Parts": '{"skey"}', "M_SourceFallsBackToInputId": "FALSE"}),
+        ("r12", "Admission_mutant.cfg", "mutant/root-reset-only-raw-cri", {"Parts": '{"seq"}', "M_RootResetPerRecord": "FALSE"}),
+        ("r13", "Admission_mutant.cfg", "mutant/threshold-0-before-exceptions", {"Parts": '{"xlist"}', "M_ExceptionsFirst": "FALSE"}),
         ("r11", "Admission_mutant.cfg", "mutant/unknown-stream-is-not_set", {"Parts": '{"offs"}', "M_PrecheckOnlyForKnownStream": "FALSE"}),
     ]
     res = {}
@@ -132,7 +134,8 @@ def strict_runs(ctx):
         raise vlib.Infra("strict invariants fail with both deviation switches off: %s" % res["r3"].violated)
     want = {"r4": ("UnbanWithin",), "r5": ("MatchAgrees",), "r6": ("DataUnchanged",),
             "r7": ("CriAdmitted", "CriVerdictIgnoresAntispam"), "r8": ("ExceptionListExempts",), "r9": ("RuleListGoverns",),
-            "r10": ("SourceKeyAgrees", "NoSharedCounter"), "r11": ("RefusedOnlyForStatedReasons",)}
+            "r10": ("SourceKeyAgrees", "NoSharedCounter"), "r11": ("RefusedOnlyForStatedReasons",),
+            "r12": ("DeliveredDependsOnRecordOnly",), "r13": ("ExemptNeverSpam",)}
     names = {j[0]: j[2] for j in jobs}
     for k, inv in want.items():
         if res[k].violated not in inv:
@@ -147,7 +150,7 @@ def run(ctx):
     cfg = "Admission_quick.cfg" if ctx.tier == "quick" else "Admission_thorough.cfg"
     size_path = os.path.join(ctx.scratch, "c20_pipeline_cases.ndjson")
     spam_path = os.path.join(ctx.scratch, "c20_antispam_cases.ndjson")
-    n_size = n_spam = n_pipe_hist = n_match = n_cri = n_xl = n_rl = n_rl_pipe = n_sk = n_ofs = 0
+    n_size = n_spam = n_pipe_hist = n_match = n_cri = n_xl = n_rl = n_rl_pipe = n_sk = n_ofs = n_xl_pipe = n_seq = 0
     per_scope = {}
     # share of histories that also go through Pipeline.In (unban iterations are the constant 4 there)
     pipe_budget = 24000 if ctx.tier == "quick" else 100000
@@ -180,8 +183,13 @@ def run(ctx):
                     n_cri += 1
                 elif part == "xlist":
                     fsp.write(line + "\n")
-                    fsz.write(line + "\n")
                     n_xl += 1
+                    if c["g"] in (0, 1):        # through Pipeline.In: thresholds 0 and 1, with and without rules
+                        fsz.write(line + "\n")
+                        n_xl_pipe += 1
+                elif part == "seq":
+                    fsz.write(line + "\n")
+                    n_seq += 1
                 elif part == "rlist":
                     fsp.write(line + "\n")
                     n_rl += 1
@@ -236,8 +244,8 @@ def run(ctx):
                 c = r.get("case") or {}
                 if r.get("harness") == "antispam-rlist":
                     fsp.write(json.dumps(dict(r.get("rlist_case") or {}, part="rlist")) + "\n")
-                elif r.get("harness") in ("pipeline-rlist", "pipeline-skey", "pipeline-offsets"):
-                    fsz.write(json.dumps(dict(r.get("raw_case") or {}, part={"rlist": "rlist", "skey": "skey", "offsets": "offs"}[r["harness"].split("-")[1]])) + "\n")
+                elif r.get("harness") in ("pipeline-rlist", "pipeline-skey", "pipeline-offsets", "pipeline-seq"):
+                    fsz.write(json.dumps(dict(r.get("raw_case") or {}, part={"rlist": "rlist", "skey": "skey", "offsets": "offs", "seq": "seq"}[r["harness"].split("-")[1]])) + "\n")
                 elif r.get("harness") == "antispam-xlist":
                     fsp.write(json.dumps(dict(r.get("xlist_case") or {}, part="xlist")) + "\n")
                 elif r.get("harness") in ("pipeline-cri", "pipeline-xlist"):
@@ -269,7 +277,9 @@ def run(ctx):
     if not ctx.replay:
         if ra["executed"] != n_spam:
             raise vlib.Infra("antispam harness executed %d of %d histories" % (ra["executed"], n_spam))
-        if ra["xlist_cases"] != n_xl or rp["misc"]["xlist_executed"] != n_xl:
+        if rp["misc"]["seq_records"] < 2 * n_seq or rp["misc"]["seq_delivered"] < n_seq:
+            raise vlib.Infra("record-sequence family: %d records, %d delivered for %d cases" % (rp["misc"]["seq_records"], rp["misc"]["seq_delivered"], n_seq))
+        if ra["xlist_cases"] != n_xl or rp["misc"]["xlist_executed"] != n_xl_pipe:
             raise vlib.Infra("exception-list cases executed: antispam %d, pipeline %d of %d" % (ra["xlist_cases"], rp["misc"]["xlist_executed"], n_xl))
         if ra["rlist_cases"] != n_rl or rp["misc"]["rlist_in_calls"] != 4 * n_rl_pipe:
             raise vlib.Infra("rule-list cases executed: antispam %d of %d, pipeline In calls %d of %d" %
